@@ -523,7 +523,41 @@ def _inline_into(host: ast.AST, hcls: Optional[ast.ClassDef], helpers) -> int:
             _simplify(body, i)
         return
     process_body(host.body)  # type: ignore[attr-defined]
+    if n:
+        _collapse_copies(host)
     return n
+
+
+def _collapse_copies(host: ast.AST) -> None:
+    """`v_inl = E` ... `v = v_inl` (a helper local that had to be renamed because the caller binds the result to the same name):
+    the helper local takes the caller's name and the copy disappears."""
+    def lists(node):
+        for x in ast.walk(node):
+            for fld in ("body", "orelse", "finalbody"):
+                b = getattr(x, fld, None)
+                if isinstance(b, list) and b and isinstance(b[0], ast.stmt):
+                    yield b
+    for body in list(lists(host)):
+        for st in list(body):
+            if not (isinstance(st, ast.Assign) and len(st.targets) == 1 and isinstance(st.targets[0], ast.Name) and isinstance(st.value, ast.Name)
+                    and st.value.id == st.targets[0].id + "_inl"):
+                continue
+            w, v = st.value.id, st.targets[0].id
+            occ = [x for x in ast.walk(host) if isinstance(x, ast.Name) and x.id == w]
+            stores = [x for x in occ if isinstance(x.ctx, ast.Store)]
+            if len(stores) != 1 or stores[0].lineno > st.lineno if hasattr(stores[0], "lineno") and hasattr(st, "lineno") else False:
+                continue
+            # `v` itself must not be read between the definition of w and the copy (it would see the old value)
+            i_copy = body.index(st)
+            defs = [k for k, s2 in enumerate(body[:i_copy]) if any(x is stores[0] for x in ast.walk(s2))]
+            if not defs:
+                continue
+            between = body[defs[0] + 1:i_copy]
+            if any(isinstance(x, ast.Name) and x.id == v for s2 in between for x in ast.walk(s2)):
+                continue
+            for x in occ:
+                x.id = v
+            body.remove(st)
 
 
 def _replace(root: ast.AST, old: ast.AST, new: ast.AST) -> None:
